@@ -752,6 +752,20 @@ def compare(op, a, b):
             inside = and_(compare('ge', a, lo), compare('lt', a, hi))
             return inside if op == 'in' else not_(inside)
     if op in ('is', 'isnot'):
+        if isinstance(a, Sym) and a is b and a.op == 'newobject':
+            return op == 'is'
+        for x, y in ((a, b), (b, a)):
+            if isinstance(y, Sym) and y.op == 'newobject':
+                # a sentinel made by object(): identical only to itself
+                if isinstance(x, Sym) and x.op == 'cond':
+                    return cond(x.args[0], compare(op, x.args[1], y),
+                                compare(op, x.args[2], y))
+                if not isinstance(x, Sym) or (x.op == 'newobject' and
+                                              x is not y):
+                    return op == 'isnot'
+                tx = typeof(x)
+                if tx is not None:
+                    return op == 'isnot'  # a value of a data type
         for x, y in ((a, b), (b, a)):
             if y is None and isinstance(x, Sym) and x.op == 'cond':
                 # distribute over a conditional value
